@@ -23,6 +23,10 @@ Input lines (one answer line each; `ok n=<size of the τ-closed state set>` or `
 * `park p=exit sub=<i>` / `unpark p=exit sub=<i>`  forwarder `i` is held at `batcher.forwarder.exit`
 * `park p=cas sub=0 v=0` / `unpark p=cas sub=0`    the `Close` call that won the processor's CAS is held at
                                              `queue.close.afterCAS` (before it closes `stopCh`)
+* `park p=fired key=<k> at=<ns>` / `unpark p=fired`   the queue's loop is held at `queue.loop.fired` (its wake-up for
+                                             that item happened, `execute` has not taken the queue lock yet)
+* `park p=timer key=<k> at=<ns>` / `unpark p=timer`   the loop is held at `queue.loop.beforeTimer` (clock read,
+                                             `NewTimer` not yet called: a clock advance now makes the timer late)
 * `quiet prompt=<i,j,…>`                    the implementation is quiescent: some compatible state must have
                                              no enabled hidden step and no value in the hand of the forwarder of
                                              a subscriber whose reader polls continuously
@@ -40,6 +44,8 @@ structure D where
   frozenSend : Bool := false
   frozenExit : List Nat := []
   frozenCas : Bool := false
+  frozenFired : Bool := false
+  frozenTimer : Bool := false
   dead : Bool := true
 
 def dummy : It := ⟨0, 0, 0, 0⟩
@@ -65,6 +71,8 @@ def hiddenOK (d : D) : Batcher.Label → Bool
   | .send | .skipExit | .skipClose | .skipGone | .proc .cbReturn => !d.frozenSend
   | .fwdRemove i => !d.frozenExit.contains i
   | .proc .closeStopCh => !d.frozenCas
+  | .proc (.execCheck _) => !d.frozenFired
+  | .proc .arm => !d.frozenTimer
   | _ => true
 
 def hidden (d : D) (s : Batcher.State) : List Batcher.Label :=
@@ -97,7 +105,7 @@ def epcName : EPc → String
 
 def pcName : Pc Nat Nat → String
   | .absent => "absent" | .top => "top" | .peeked r => s!"peeked({r.val})" | .polled r => s!"polled({r.val})"
-  | .armed r => s!"armed({r.val})" | .firing r => s!"firing({r.val})" | .popped r => s!"popped({r.val})"
+  | .arming r => s!"arming({r.val})" | .armed r => s!"armed({r.val})" | .firing r => s!"firing({r.val})" | .popped r => s!"popped({r.val})"
   | .running r => s!"running({r.val})" | .exiting => "exiting"
 
 def cpcName : ClosePc → String
@@ -105,7 +113,7 @@ def cpcName : ClosePc → String
 
 def showState (s : Batcher.State) : String :=
   let q := ",".intercalate (s.p.q.map fun r => s!"k{r.key}={r.val}@{r.time}")
-  s!"q:{q};now:{s.p.now};pc:{pcName s.p.pc};qclose:{cpcName s.p.cpc};reset:{s.p.reset};epc:{epcName s.epc};closed:{s.closed};close(q/l/w/r):{s.cq}/{s.cl}/{s.cw}/{s.cr};waitS:{s.waitS};retS:{s.retS};subs:{"".intercalate (s.subs.map showSub)}"
+  s!"q:{q};now:{s.p.now};timer:{s.p.timer};pc:{pcName s.p.pc};qclose:{cpcName s.p.cpc};reset:{s.p.reset};epc:{epcName s.epc};closed:{s.closed};close(q/l/w/r):{s.cq}/{s.cl}/{s.cw}/{s.cr};waitS:{s.waitS};retS:{s.retS};subs:{"".intercalate (s.subs.map showSub)}"
 
 /-- Successors of one state under one observable event; `none` = malformed line. -/
 def onEvent (d : D) (l : Line) (s : Batcher.State) : Option (List Batcher.State) :=
@@ -140,8 +148,17 @@ def onEvent (d : D) (l : Line) (s : Batcher.State) : Option (List Batcher.State)
   | "ccall" => some (Batcher.step cfg s .closeCall).toList
   | "cret" => some (Batcher.step cfg s .closeReturn).toList
   | "park" => do
-    let p ← l.get? "p"; let i ← l.nat? "sub"
+    let p ← l.get? "p"; let i := (l.nat? "sub").getD 0
+    let sameItem (r : It) : Bool := l.nat? "key" == some r.key && l.int? "at" == some r.time
     match p with
+    | "fired" =>
+      match s.p.pc with
+      | .firing r => return if sameItem r then [s] else []
+      | _ => return []
+    | "timer" =>
+      match s.p.pc with
+      | .arming r => return if sameItem r then [s] else []
+      | _ => return []
     | "send" =>
       let v ← l.nat? "v"
       match s.epc, s.subs[i]? with
@@ -186,7 +203,7 @@ def handle (d : D) (raw : String) : D × String :=
   if l.op == "reset" then
     let cfg : Batcher.Cfg :=
       ⟨l.nat? "fixed" != some 0, (l.nat? "cap").getD 50, (l.int? "interval").getD 10000000⟩
-    let d' : D := { cfg := cfg, cur := {}, frozenSend := false, frozenExit := [], frozenCas := false, dead := false }
+    let d' : D := { cfg := cfg, cur := {}, frozenSend := false, frozenExit := [], frozenCas := false, frozenFired := false, frozenTimer := false, dead := false }
     let cur := closeSet d' [Batcher.init]
     ({ d' with cur := cur }, s!"ok n={cur.size}")
   else if d.dead then (d, "reject at=earlier")
@@ -194,7 +211,7 @@ def handle (d : D) (raw : String) : D × String :=
     (d, " || ".intercalate ((d.cur.toList.take ((l.nat? "n").getD 10)).map showState))
   else if l.op == "stuck" then
     let all := d.cur.toList
-    let k := (all.filter fun s => pendingWork s && ((Batcher.taus d.cfg s).filter (hiddenOK { d with frozenSend := false, frozenExit := [], frozenCas := false })).isEmpty
+    let k := (all.filter fun s => pendingWork s && ((Batcher.taus d.cfg s).filter (hiddenOK { d with frozenSend := false, frozenExit := [], frozenCas := false, frozenFired := false, frozenTimer := false })).isEmpty
                 && (Batcher.step d.cfg s .closeReturn).isNone).length
     (d, s!"stuck n={k} of={all.length}")
   else
@@ -211,6 +228,10 @@ def handle (d : D) (raw : String) : D × String :=
         | "unpark", some "exit", some i => { d with frozenExit := d.frozenExit.filter (· != i) }
         | "park", some "cas", _ => { d with frozenCas := true }
         | "unpark", some "cas", _ => { d with frozenCas := false }
+        | "park", some "fired", _ => { d with frozenFired := true }
+        | "unpark", some "fired", _ => { d with frozenFired := false }
+        | "park", some "timer", _ => { d with frozenTimer := true }
+        | "unpark", some "timer", _ => { d with frozenTimer := false }
         | _, _, _ => d
       let nxt := closeSet d1 (rs.flatMap fun r => r.getD [])
       if nxt.size > closureLimit then
